@@ -188,6 +188,24 @@ def _run_task(task):
     return res
 
 
+FLIP = {'little': {True: False, False: True}, 'elfclass': {32: 64, 64: 32}, 'addr': {4: 8, 8: 4}, 'fmt64': {True: False, False: True}, 'fmt': {32: 64, 64: 32}}
+
+
+def _twins(insts, j, limit):
+    """decoy instances that differ from instance j in exactly one environment parameter, synthesised by flipping it (byte order
+    first).  A synthesised instance the harness cannot build does no harm: decoy runs are silent and may fail."""
+    cfg = insts[j]
+    out = []
+    for key in ('little', 'elfclass', 'addr', 'fmt64', 'fmt'):
+        if len(out) >= limit:
+            break
+        if key in cfg and cfg[key] in FLIP[key]:
+            out.append(dict(cfg, **{key: FLIP[key][cfg[key]]}))
+        elif isinstance(cfg.get('env'), dict) and key in cfg['env'] and cfg['env'][key] in FLIP[key]:
+            out.append(dict(cfg, env=dict(cfg['env'], **{key: FLIP[key][cfg['env'][key]]})))
+    return out
+
+
 def tuple_dec(d):
     d = tuple(d)
     if d[0] == 'x':
@@ -258,11 +276,19 @@ def decide(pid, tier, jobs, repo, seed, only=None, verbose=False):
         nd = len(insts) if h.decoy == 'all' else min(int(dflt if not h.decoy else max(h.decoy, 0)), len(insts))
         if nd and len(insts) > 1:
             step = max(len(insts) // nd, 1)
-            for j in range(0, len(insts), step)[:nd] if False else list(range(0, len(insts), step))[:nd]:
+            for j in list(range(0, len(insts), step))[:nd]:
+                if not isinstance(insts[j], dict):
+                    continue
+                decoys = []
                 for off in ((1,) if tier == 'quick' else (1, max(len(insts) // 2, 2))):
                     d = insts[(j + off + seed) % len(insts)]
-                    if isinstance(insts[j], dict) and d is not insts[j]:
-                        allcfg.append(dict(insts[j], _decoy=d))
+                    if d is not insts[j]:
+                        decoys.append(d)
+                # "twins": the instance that differs in exactly one environment parameter (byte order first, then class, address
+                # size, offset size, version): state the library keeps per process and keys without that parameter shows up
+                decoys += _twins(insts, j, 1 if tier == 'quick' else 3)
+                for d in decoys:
+                    allcfg.append(dict(insts[j], _decoy=d))
         per_h[h.name]['instances'] = len(allcfg)
         per_h[h.name]['decoy_instances'] = len(allcfg) - len(insts)
         for cfg in allcfg:
